@@ -1,7 +1,8 @@
 """Generated tie: part of the model is regenerated from the source under test on every run.
 
 For the small pure functions of /repo (PluginRef operators, container path helpers, entry
-point names, record file names, hashsum prefix) `tools/py2coq.py` translates the *current*
+point names, record file names, hashsum prefix, the per-container chain checks `_check_ublock`,
+`DiffNode.status`) `tools/py2coq.py` translates the *current*
 Python source (``$VERIF_REPO/src/...``) into Gallina (``build/gen/Gen_<target>.v``), and the
 committed ``coq/Gen/Equiv_<target>.v`` -- compiled against that generated text -- proves the
 translated functions equal, for all inputs, to the hand model's functions the property
@@ -88,15 +89,61 @@ TARGETS: Dict[str, Dict[str, Any]] = {
         "constants": ["DEF_HASH_ALG"],
         "model": "coq/Util/DirHash.v (qualified)",
     },
+    "chain": {
+        "source": "src/metador_core/ih5/manifest.py",
+        "extra_sources": ["src/metador_core/ih5/record.py"],
+        "bases": {"IH5MFRecord": "IH5Record"},
+        "header": ("From MV Require Import Rec.Chain.\n"
+                   "Definition py_path_str (p : string) : string := p.\n"
+                   "Definition py_self_uuid (rid : N) : N := rid.\n"),
+        "records": {
+            "Path": {"coq": "string", "str": "py_path_str", "fields": {}},
+            "Rec": {"coq": "N", "fields": {"ih5_uuid": ("py_self_uuid", "N")}},
+            "UB": {"coq": "Chain.ublock", "fields": {
+                "record_uuid": ("Chain.rec_id", "N"), "patch_index": ("Chain.idx", "N"),
+                "patch_uuid": ("Chain.pid", "N"), "prev_patch": ("Chain.prev", "Optional[N]"),
+                "hdf5_hashsum": ("Chain.hash", "Optional[N]")}},
+            "MfExt": {"coq": "Chain.mfext", "fields": {"is_stub_container": ("Chain.is_stub", "bool")}},
+        },
+        "casts": {"Path": "pathlib.Path(s) read as the string s"},
+        "opaque": {"hashsum_file": {"ret": "N"}},
+        "extern": {"IH5UBExtManifest.get": {"coq": "Chain.ext", "params": ["UB"], "ret": "Optional[MfExt]",
+                                             "why": "parses ub.ub_exts['ih5mf_v01'] (None if absent)"}},
+        "functions": [
+            {"py": "IH5Record._check_ublock",
+             "params": {"self": "Rec", "filename": "Path", "ub": "UB", "prev": "Optional[UB]"}},
+            {"py": "IH5MFRecord._check_ublock",
+             "params": {"self": "Rec", "filename": "Path", "ub": "UB", "prev": "Optional[UB]"}}],
+        "outside_subset": ["IH5Record._open", "IH5MFRecord._open"],
+        "model": "coq/Rec/Chain.v (check_ub, both record classes)",
+    },
+    "diff": {
+        "source": "src/metador_core/util/diff.py",
+        "header": "From MV Require Import Util.Diff.\n",
+        "records": {
+            "DiffNode": {"coq": "Diff.dnode", "fields": {"prev": ("Diff.nprev", "Optional[DTree]"),
+                                                          "curr": ("Diff.ncurr", "Optional[DTree]")}},
+            "DTree": {"coq": "Diff.dtree", "fields": {}},
+            "Status": {"coq": "Diff.status", "fields": {}},
+        },
+        "attr_consts": {"DiffNode.Status.added": ("Diff.Added", "Status"), "DiffNode.Status.removed": ("Diff.Removed", "Status"),
+                        "DiffNode.Status.modified": ("Diff.Modified", "Status"),
+                        "DiffNode.Status.unchanged": ("Diff.Unchanged", "Status")},
+        "functions": [{"py": "DiffNode.status", "ret": "Status"}],
+        "outside_subset": ["DiffNode._type", "DiffNode.nodes", "DiffNode.compare"],
+        "model": "coq/Util/Diff.v (nstatus)",
+    },
 }
 
-PROPS: Dict[str, List[str]] = {"C16": ["plugins", "types"], "C08": ["utils"], "C03": ["record"], "C19": ["hashsums"]}
+PROPS: Dict[str, List[str]] = {"C16": ["plugins", "types"], "C08": ["utils"], "C03": ["record"], "C19": ["hashsums"], "C04": ["chain"], "C18": ["diff"]}
 
-TRUSTED = ("generated tie (coverage.generated_tie): tools/py2coq.py (fail-closed Python->Gallina translator, ~830 lines) and "
+TRUSTED = ("generated tie (coverage.generated_tie): tools/py2coq.py (fail-closed Python->Gallina translator, ~1100 lines) and "
            "coq/Gen/PyLib.v (meaning of the Python builtins it emits: str.startswith/find/split/join/slices, len, list "
-           "item access, tuple/str comparison) are trusted; exceptions are not modelled (partial operations are read "
-           "totally and listed in the evidence); type declarations of untyped parameters, record projections, casts "
-           "read as identities and opaque functions are given per target in harness/gentie.py")
+           "item access, tuple/str comparison) are trusted; `raise X(msg)` / `assert` are read as returning inl (class name, "
+           "message) and a call of such a function as a monadic bind; exceptions raised by builtins are not modelled "
+           "(partial operations are read totally and listed in the evidence); type declarations of untyped parameters, record "
+           "projections, casts read as identities, extern and opaque functions (object state and the file system enter the "
+           "translated functions only as such parameters) are given per target in harness/gentie.py")
 
 
 def _sha(p: Path) -> str:
@@ -138,7 +185,7 @@ def check_target(name: str, work: Path, pid: str) -> Dict[str, Any]:
     main = [t["name"] for t in thms if t["kind"] == "Theorem"]
     # (a) translate, fail-closed
     try:
-        tr = py2coq.translate(str(src), spec, shown_path=spec["source"])
+        tr = py2coq.translate(str(src), spec, shown_path=spec["source"], root=str(vlib.REPO))
     except py2coq.Refuse as r:
         res["problems"].append(f"translator refused (outside the supported subset) {r}; none of the {len(main)} theorems of "
                                f"{res['equivalence_file']} can be checked")
@@ -153,10 +200,13 @@ def check_target(name: str, work: Path, pid: str) -> Dict[str, Any]:
     res["constants"] = tr.constants
     res["partial_operations_read_totally"] = tr.partial
     res["assumed"] = tr.assumed
+    if tr.extra_sha256:
+        res["extra_sources_sha256"] = tr.extra_sha256
     res["outside_subset"] = {}
     for q in spec.get("outside_subset", []):
         try:
-            py2coq.translate(str(src), dict(spec, functions=[{"py": q}], constants=[]), shown_path=spec["source"])
+            py2coq.translate(str(src), dict(spec, functions=[{"py": q}], constants=[]), shown_path=spec["source"],
+                             root=str(vlib.REPO))
             res["outside_subset"][q] = "translatable now (no equivalence theorem yet)"
         except py2coq.Refuse as r:
             res["outside_subset"][q] = str(r)
